@@ -55,16 +55,23 @@ def setup():
     ch, errs = vlib.translate()
     for k, v in errs.items():
         print(f"TRANSLATE-ERROR {k}: {v}")
-    ok, out = vlib.coq_make(["all"])
+    # -k: a file that does not build must not prevent the others from being built; every check rebuilds (and
+    # reports on) its own dependency cone anyway, so setup only fails when nothing at all can be built
+    with vlib.BuildLock():
+        vlib.make_makefile()
+    rc, out = vlib.run_cmd(["make", "-k", "-j16", "COQC=timeout 900 coqc", "all"], cwd=vlib.COQ, timeout=2400)
     print(out[-3000:])
-    print(f"setup: build {'ok' if ok else 'FAILED'} in {time.time()-t0:.1f}s")
+    base_ok, _ = vlib.coq_make(["theories/Semiring.vo"])
+    ok = base_ok
+    print(f"setup: full build {'ok' if rc == 0 else 'INCOMPLETE (see above; the affected checks will report it)'}; "
+          f"base {'ok' if base_ok else 'FAILED'} in {time.time()-t0:.1f}s")
     # OCaml extraction build (if present)
     mk = os.path.join(vlib.ROOT, "ocaml", "build.sh")
     if ok and os.path.exists(mk):
         rc, o = vlib.run_cmd(["bash", mk], cwd=os.path.join(vlib.ROOT, "ocaml"), timeout=900)
         print(o[-2000:])
         ok = ok and rc == 0
-    return 0 if (ok and not errs) else 1
+    return 0 if ok else 1
 
 
 def main():
